@@ -1,7 +1,9 @@
 #!/usr/bin/env python3
 """markdown table of the seeded changes and which checks catch them (from seeded/*/meta.json + result.json); used for DESIGN.md §11"""
-import os, json, glob, re
+import os, json, glob, re, sys, io
 ROOT = os.path.dirname(os.path.dirname(os.path.abspath(__file__)))
+_out = io.StringIO(); _real = sys.stdout
+if '--design' in sys.argv: sys.stdout = _out
 print('| seed | breaks | change (site: idea) | caught by (quick tier) | how |')
 print('|------|--------|---------------------|------------------------|-----|')
 tot = hit = 0
@@ -28,3 +30,9 @@ for d in sorted(glob.glob(os.path.join(ROOT, 'seeded', '*'))):
     print(f"| {sid} | {own} | {files}: {summ} | {' '.join(caught) or '—'} | {'; '.join(how)} |")
 print()
 print(f'{hit} of {tot} seeded changes are detected by the check of the property they were written against (`*` = detected through a broken proof obligation or correspondence without a failing input: `no-failing-input-found`).')
+
+if '--design' in sys.argv:
+    sys.stdout = _real
+    p = os.path.join(ROOT, 'DESIGN.md'); t = open(p).read()
+    t = re.sub(r'(<!-- seed-table:begin -->\n).*?(<!-- seed-table:end -->)', lambda m: m.group(1) + _out.getvalue() + m.group(2), t, flags=re.S)
+    open(p, 'w').write(t); print('DESIGN.md table updated')
